@@ -5,6 +5,7 @@ import (
 	"encoding/json"
 	"fmt"
 	"net/http"
+	nurl "net/url"
 	"os"
 	"os/exec"
 	"path/filepath"
@@ -76,12 +77,21 @@ var c11Atoms = append(append([]ora.Atom{}, c13Atoms...),
 	ora.Atom{Name: "SCH2", Gen: func(t *ora.Tok) string {
 		return "<div itemscope itemtype=\"http://schema.org/Article\"><span itemprop=\"headline\">" + t.W(3) + "</span><img itemprop=\"image\" src=\"http://example.com/img/ph.gif\" data-src=\"http://example.com/img/" + t.U() + ".jpg\" width=\"400\" height=\"300\"></div>"
 	}},
+	ora.Atom{Name: "TBLcg", Gen: func(t *ora.Tok) string {
+		return "<table><colgroup><col><col></colgroup><tr><th></th><th>" + t.W(1) + "</th></tr><tr><td>" + t.W(1) + "</td><td>" + t.W(1) + "</td></tr></table>"
+	}},
+	ora.Atom{Name: "TBLcol", Gen: func(t *ora.Tok) string {
+		return "<table><col><tr><th> </th><th>" + t.W(1) + "</th><th>" + t.W(1) + "</th></tr><tr><td>" + t.W(1) + "</td><td>" + t.W(1) + "</td><td>" + t.W(1) + "</td></tr></table>"
+	}},
+	ora.Atom{Name: "EMBp", Gen: func(t *ora.Tok) string {
+		return "<p>" + t.W(9) + " <b>" + t.W(2) + "</b>: <iframe src=\"http://www.youtube.com/embed/" + t.U() + "\"></iframe> " + t.W(11) + " <i>" + t.W(1) + "</i></p><p>" + t.W(8) + " <blockquote class=\"twitter-tweet\"><p>" + t.W(5) + "</p><a href=\"https://twitter.com/x/status/31337\">" + t.W(1) + "</a></blockquote> " + t.W(9) + "</p>"
+	}},
 	ora.Atom{Name: "LBL2", Gen: func(t *ora.Tok) string {
 		return "<div class=\"comment\"><h2>" + t.W(3) + "</h2><ul><li><h3>" + t.W(2) + "</h3>" + t.W(12) + "</li><li>" + t.W(20) + "</li></ul></div>"
 	}},
 )
 
-var c11Alphabet = []string{"Pc", "Pb", "H", "UL3", "TBLd", "IMG", "FIG", "YT", "YTq", "VMq", "TW", "PAGER", "PAGER2", "PAGER3", "LBL", "LBL2", "OG", "INL", "FALLB"}
+var c11Alphabet = []string{"Pc", "Pb", "H", "UL3", "TBLd", "IMG", "FIG", "YT", "YTq", "VMq", "TW", "PAGER", "PAGER2", "PAGER3", "LBL", "LBL2", "OG", "INL", "FALLB", "TBLcg", "TBLcol"}
 
 func c11Enumerate(tier string, emit func(*eng.Case)) {
 	thorough := tier == "thorough"
@@ -140,6 +150,29 @@ func c11Enumerate(tier string, emit func(*eng.Case)) {
 		}
 		emit(&eng.Case{Kind: "history", P: map[string]string{"menu": "main", "seq": strings.Join(s, ","), "doc": "history " + strings.Join(s, ",")}})
 	})
+	// (2c) ordered pairs and triples over the metadata menu
+	nm := len(c11MenuNamed("meta"))
+	for i := 0; i < nm; i++ {
+		for j := 0; j < nm; j++ {
+			emit(&eng.Case{Kind: "history", P: map[string]string{"menu": "meta", "seq": fmt.Sprintf("%d,%d", i, j), "doc": fmt.Sprintf("meta-menu history %d,%d", i, j)}})
+			if tier == "thorough" {
+				for k := 0; k < nm; k++ {
+					emit(&eng.Case{Kind: "history", P: map[string]string{"menu": "meta", "seq": fmt.Sprintf("%d,%d,%d", i, j, k), "doc": fmt.Sprintf("meta-menu history %d,%d,%d", i, j, k)}})
+				}
+			}
+		}
+	}
+	// (2d) one URL object reused and changed in place by the caller between two calls
+	for i := 0; i < len(c11InplaceURLs); i++ {
+		for j := 0; j < len(c11InplaceURLs); j++ {
+			if i == j {
+				continue
+			}
+			for algo := 0; algo < 2; algo++ {
+				emit(&eng.Case{Kind: "inplace", Algo: algo, P: map[string]string{"from": fmt.Sprint(i), "to": fmt.Sprint(j), "doc": fmt.Sprintf("URL object changed in place from %s to %s between two calls", c11InplaceURLs[i], c11InplaceURLs[j])}})
+			}
+		}
+	}
 	// (2b) ordered pairs over the URL-resolution menu
 	nu := len(c11MenuNamed("url"))
 	for i := 0; i < nu; i++ {
@@ -197,6 +230,40 @@ func c11MenuNamed(name string) []c11Call {
 		for _, u := range []string{"http://example.com/articles/", "http://example.com/articles/2", "http://example.com/articles/2/", "http://example.com/book/chapter-1/page.html",
 			"http://example.com/book/chapter-2/page.html", "http://www.youtube.com/watch/x", "http://evil.example/watch/x"} {
 			m = append(m, c11Call{doc, u, 0, 0, "apply"}, c11Call{doc, u, 1, 0, "reader"})
+		}
+		return m
+	}
+	if name == "meta" {
+		// pages whose metadata parsers take different paths: a stateful parser (pooled, cached) would
+		// carry flags from one page to the next
+		og := func(typ string, complete bool, extra string) string {
+			h := "<meta property=\"og:type\" content=\"" + typ + "\"><meta property=\"og:title\" content=\"OG " + typ + " title\"><meta property=\"og:url\" content=\"http://og.example/" + typ + "\">"
+			if complete {
+				h += "<meta property=\"og:image\" content=\"http://og.example/i.jpg\">"
+			}
+			return h + extra
+		}
+		page := func(head, body string) string {
+			t := &ora.Tok{}
+			return "<html><head><title>" + ora.DefaultTitle + "</title>" + head + "</head><body><div class=\"main\"><p>" + t.W(21) + "</p>" + body + "<p>" + t.W(22) + "</p><p>" + t.W(23) + "</p></div></body></html>"
+		}
+		prof := "<meta property=\"profile:first_name\" content=\"Jane\"><meta property=\"profile:last_name\" content=\"Doe\">"
+		art := "<meta property=\"article:author\" content=\"Art Author\"><meta property=\"article:section\" content=\"Art Section\">"
+		ie := "<div><span class=\"byline-name\">IE Author</span></div><div class=\"dateline\">IE date</div>"
+		sc := "<div itemscope itemtype=\"http://schema.org/Article\"><span itemprop=\"headline\">SC headline</span><span itemprop=\"author\">SC Author</span></div>"
+		docs := []string{
+			page(og("profile", false, prof), ie),
+			page(og("profile", true, prof), ie),
+			page(og("website", true, prof), ie),
+			page(og("article", true, art), sc),
+			page(og("article", false, art), sc+ie),
+			page(og("website", true, art), sc),
+			page("", sc+ie),
+			page("<meta name=\"IE_RM_OFF\" content=\"true\">"+og("article", true, art), sc),
+		}
+		var m []c11Call
+		for _, d := range docs {
+			m = append(m, c11Call{d, "", 0, 0, "reader-nil"})
 		}
 		return m
 	}
@@ -318,6 +385,8 @@ func c11RunHistory(menu, seq string) ([]string, map[string]int, error) {
 
 var c11Solo = map[string]string{}
 
+var c11InplaceURLs = []string{"http://example.com/archive/2019/part-1/", "http://example.com/stories/river/", "http://second.example/stories/river/", "https://example.com/archive/2019/part-1/page-2", "http://example.com"}
+
 // ---- check -----------------------------------------------------------------------------------
 
 func siteName(site int) string {
@@ -432,6 +501,38 @@ func c11Check(c *eng.Case) *eng.Outcome {
 		}
 		o.Nontrivial = len(idx) >= 2
 		o.Class = fmt.Sprintf("history len=%d", len(idx))
+	case "inplace":
+		var from, to int
+		fmt.Sscan(c.Get("from"), &from)
+		fmt.Sscan(c.Get("to"), &to)
+		doc := c11MenuNamed("url")[0].html
+		u, _ := nurl.Parse(c11InplaceURLs[from])
+		opts := &distiller.Options{OriginalURL: u, PaginationAlgo: distiller.PaginationAlgo(c.Algo)}
+		run := func(o2 *distiller.Options) string {
+			var res *distiller.Result
+			var err error
+			pi := eng.Protect(func() { res, err = distiller.Apply(ora.Parse(doc), o2) })
+			o.Execs++
+			switch {
+			case pi != nil:
+				return "PANIC " + pi.Sig()
+			case err != nil:
+				return "ERR " + err.Error()
+			}
+			return fullKey(res)
+		}
+		run(opts)
+		// the caller updates its URL value in place (it owns it) and distils again
+		u2, _ := nurl.Parse(c11InplaceURLs[to])
+		*u = *u2
+		got := run(opts)
+		fresh, _ := nurl.Parse(c11InplaceURLs[to])
+		want := run(&distiller.Options{OriginalURL: fresh, PaginationAlgo: distiller.PaginationAlgo(c.Algo)})
+		if got != want {
+			o.V("inplace-url:"+diffField(want, got), "after the caller changed its URL object in place, the result differs from a call with a freshly parsed equal URL: %s; %s", firstDiff(want, got), c.Get("doc"))
+		}
+		o.Nontrivial = true
+		o.Class = "inplace"
 	case "entry":
 		cc := &eng.Case{URL: c.URL, Algo: 1}
 		run := func(f func() (*distiller.Result, error)) string {
@@ -447,7 +548,9 @@ func c11Check(c *eng.Case) *eng.Outcome {
 			}
 			return fullKey(res)
 		}
-		kReader := run(func() (*distiller.Result, error) { return distiller.ApplyForReader(strings.NewReader(c.HTML), ora.Opts(cc)) })
+		kReader := run(func() (*distiller.Result, error) {
+			return distiller.ApplyForReader(strings.NewReader(c.HTML), ora.Opts(cc))
+		})
 		kApply := run(func() (*distiller.Result, error) {
 			doc, err := dom.Parse(strings.NewReader(c.HTML))
 			if err != nil {
@@ -481,8 +584,8 @@ func init() {
 	eng.Register(&eng.Prop{
 		ID:        "C11",
 		DesignRef: "§5 C11",
-		Rule: "(1) map orders: for each corpus document - pagers of 6 pages whose 5 links each follow one of 3 (quick) / 4 (thorough) URL patterns, current page 2|4 / 1..6, both algorithms; S1,S2 with <= 1 / <= 2 insertions over 19 atoms (embeds with several query parameters, multi-label blocks, schema.org item, pagers) x flags {none, all} x both algorithms - a DFS explores every execution with <= 1 non-default iteration order (<= 2 on the pager corpus in thorough) at the range-over-map sites (all permutations for <= 4 keys; descending, rotations, adjacent transpositions above); the canonical result (all fields but TimingInfo) must be identical. " +
-			"(2) histories: every sequence of <= 3 calls from a menu of 9 (document, options, entry point; including a page that starts with media, nil options and ApplyForURL(nil) through a stub transport), and every ordered pair from a 14-entry menu that distils one document full of relative references under page URLs sharing hosts, directories and string prefixes, runs in a fresh process; each call must equal the same call alone in a fresh process; package-variable writes after init are reported. (3) entry points: ApplyForReader == ApplyForFile == Apply(dom.Parse) on all byte-token strings of <= 2 / <= 3 tokens and the corpus. " +
+		Rule: "(1) map orders: for each corpus document - pagers of 6 pages whose 5 links each follow one of 3 (quick) / 4 (thorough) URL patterns, current page 2|4 / 1..6, both algorithms; S1,S2 with <= 1 / <= 2 insertions over 21 atoms (embeds with several query parameters, multi-label blocks, schema.org item, pagers) x flags {none, all} x both algorithms - a DFS explores every execution with <= 1 non-default iteration order (<= 2 on the pager corpus in thorough) at the range-over-map sites (all permutations for <= 4 keys; descending, rotations, adjacent transpositions above); the canonical result (all fields but TimingInfo) must be identical. " +
+			"(2) histories: every sequence of <= 3 calls from a menu of 9 (document, options, entry point; including a page that starts with media, nil options and ApplyForURL(nil) through a stub transport), and every ordered pair from a 14-entry menu that distils one document full of relative references under page URLs sharing hosts, directories and string prefixes, and every ordered pair (thorough: triple) from an 8-entry menu of pages whose OpenGraph/schema.org/IE metadata take different parser paths, runs in a fresh process; additionally, for every ordered pair of 5 page URLs and both algorithms, one URL object is used, overwritten in place by the caller and used again, and the second result must equal that of a freshly parsed equal URL; each call must equal the same call alone in a fresh process; package-variable writes after init are reported. (3) entry points: ApplyForReader == ApplyForFile == Apply(dom.Parse) on all byte-token strings of <= 2 / <= 3 tokens and the corpus. " +
 			"Non-trivial = an execution met a ranged map with >= 2 keys and a non-default order was explored; histories of >= 2 calls; inputs that parse.",
 		Enumerate: c11Enumerate,
 		Check:     c11Check,
